@@ -139,6 +139,12 @@ else:
         if isinstance(annotation, str):
             return annotation
 
+        # A class is what it is: it is never an alias.  (Looking its NAME up in
+        # other modules would let an unrelated `Name = Union[...]` defined
+        # anywhere in the process replace a model class or a builtin.)
+        if inspect.isclass(annotation):
+            return annotation
+
         # For type aliases, try multiple resolution strategies
         if hasattr(annotation, "__name__"):
             alias_name = annotation.__name__
